@@ -28,6 +28,14 @@ func vApplyBatch(db *DB, kp *vPool, m *vModel, maxOps int, id string) {
 		n = 1 + verifChoice("bops", maxOps)
 	}
 	staged := m.clone()
+	// bcycles: the batch first stages N Put+Delete cycles (pool keys in turn, 1-byte values) - records the batch
+	// stages, cancels and still has to write as tombstones - before its symbolic operations
+	for c := 0; c < verifParam("bcycles"); c++ {
+		ki := c % len(kp.keys)
+		verifAssert(b.Put(kp.keys[ki], verifBytes("bcv", 1)) == nil, id+".batch-put-err")
+		verifAssert(b.Delete(kp.keys[ki]) == nil, id+".batch-delete-err")
+		staged.del(kp.canon[ki])
+	}
 	for i := 0; i < n; i++ {
 		ki := verifChoice("bki", len(kp.keys))
 		if verifChoice("bop", 2) == 0 {
